@@ -84,6 +84,146 @@ def marshalTPs : List RawTP → Res Bytes
     | .ok i, .ok l, .ok r => .ok (i ++ l ++ tp.value ++ r)
     | _, _, _ => .panic
 
+/-! ## Destination slices: `append` into spare capacity
+
+`Append`/`AppendWithLen` take a destination `b []byte`. What the caller sees of `b` is `b[0:len]`;
+the backing array may extend beyond it (`cap(b) > len(b)`) and hold whatever an earlier user left
+there (a scratch buffer reset with `b = b[:0]`). The functions below transcribe the Go code at that
+level: every Go `append` either writes into the spare capacity or moves to a fresh, zeroed array
+whose extra capacity is the runtime's choice (`grow`). `C24.append_ignores_capacity` shows the
+visible result never depends on either. -/
+
+/-- a Go `[]byte` as `append` sees it: `data = b[0:len]`, `spare = b[len:cap]`. -/
+structure Slice where
+  data : Bytes
+  spare : Bytes
+  deriving DecidableEq, Repr
+
+/-- the nil slice (`var b []byte`). -/
+def Slice.nil : Slice := ⟨[], []⟩
+
+/-- Go `append(s, bs...)`. -/
+def goAppend (grow : Nat → Nat) (s : Slice) (bs : Bytes) : Slice :=
+  if bs.length ≤ s.spare.length then ⟨s.data ++ bs, s.spare.drop bs.length⟩
+  else ⟨s.data ++ bs, List.replicate (grow (s.data.length + bs.length)) 0⟩
+
+/-- a loop of single-byte appends `b = append(b, c)`. -/
+def appendEach (grow : Nat → Nat) (s : Slice) : Bytes → Slice
+  | [] => s
+  | c :: cs => appendEach grow (goAppend grow s [c]) cs
+
+/-- `quicvarint.Append(b, x)`: one `append` of the whole encoding. -/
+def sAppend (grow : Nat → Nat) (s : Slice) (x : Nat) : Res Slice :=
+  match vAppend x with
+  | .ok bs => .ok (goAppend grow s bs)
+  | .panic => .panic
+
+/-- `quicvarint.AppendWithLen(b, x, w)`: prefix byte, `w-l-1` zero bytes, `l` value bytes, each
+appended on its own. -/
+def sAppendWithLen (grow : Nat → Nat) (s : Slice) (x w : Nat) : Res Slice :=
+  if w ≠ 1 ∧ w ≠ 2 ∧ w ≠ 4 ∧ w ≠ 8 then .panic else
+  match vLen x with
+  | .panic => .panic
+  | .ok l =>
+    if l = w then sAppend grow s x
+    else if l > w then .panic
+    else
+      let s1 := if w = 2 then goAppend grow s [b 64] else if w = 4 then goAppend grow s [b 128]
+                else if w = 8 then goAppend grow s [b 192] else s
+      let s2 := appendEach grow s1 (List.replicate (w - l - 1) (b 0))
+      .ok (appendEach grow s2 (beBytes x l))
+
+/-- what the caller sees of a result. -/
+def viewOf : Res Slice → Res Bytes
+  | .ok s => .ok s.data
+  | .panic => .panic
+
+/-- `pre ++ ·` under `Res`. -/
+def prefixed (pre : Bytes) : Res Bytes → Res Bytes
+  | .ok bs => .ok (pre ++ bs)
+  | .panic => .panic
+
+/-- `TransportParameters.Marshal` at slice level, from the destination `s` (`var b []byte` = `Slice.nil`). -/
+def sMarshal (grow : Nat → Nat) : Slice → List RawTP → Res Slice
+  | s, [] => .ok s
+  | s, tp :: rest =>
+    match sAppend grow s tp.id with
+    | .panic => .panic
+    | .ok s1 =>
+      match sAppend grow s1 tp.value.length with
+      | .panic => .panic
+      | .ok s2 => sMarshal grow (goAppend grow s2 tp.value) rest
+
+/-- several lists marshalled one after the other, every result kept by the caller. -/
+def marshalSeq : List (List RawTP) → Res (List Bytes)
+  | [] => .ok []
+  | l :: ls =>
+    match marshalTPs l, marshalSeq ls with
+    | .ok bs, .ok rest => .ok (bs :: rest)
+    | _, _ => .panic
+
+/-! ## Memory: which array a result lives in
+
+The slice model above has no notion of *which* array a slice points into, so it cannot say that a
+result the caller keeps is not overwritten by a later call. The model below adds that: the heap is
+the list of byte arrays allocated so far (address = index), a slice header is an address and a
+length (`cap` = the array's length), `append` writes in place when the array has room and allocates
+a new array otherwise. `Marshal` starts from the nil slice (`var b []byte`), so everything it writes
+lies in arrays it allocated itself — `C24.marshal_results_survive_later_calls`. -/
+
+abbrev Heap := List Bytes
+
+structure Hdr where
+  arr : Nat
+  len : Nat
+  deriving DecidableEq, Repr
+
+/-- the bytes a (possibly nil) slice header shows in heap `h`. -/
+def hView (h : Heap) : Option Hdr → Bytes
+  | none => []
+  | some s => (h.getD s.arr []).take s.len
+
+/-- overwrite `a[off : off+len(bs)]`. -/
+def writeAt (a : Bytes) (off : Nat) (bs : Bytes) : Bytes := a.take off ++ bs ++ a.drop (off + bs.length)
+
+/-- Go `append(s, bs...)` on the heap. -/
+def hAppend (grow : Nat → Nat) (h : Heap) (s : Option Hdr) (bs : Bytes) : Heap × Option Hdr :=
+  match s with
+  | none =>
+    if bs = [] then (h, none)
+    else (h ++ [bs ++ List.replicate (grow bs.length) 0], some ⟨h.length, bs.length⟩)
+  | some s =>
+    let a := h.getD s.arr []
+    if s.len + bs.length ≤ a.length then (h.set s.arr (writeAt a s.len bs), some ⟨s.arr, s.len + bs.length⟩)
+    else (h ++ [a.take s.len ++ bs ++ List.replicate (grow (s.len + bs.length)) 0], some ⟨h.length, s.len + bs.length⟩)
+
+/-- `TransportParameters.Marshal` on the heap, continuing from slice `s`. -/
+def hMarshalFrom (grow : Nat → Nat) : Heap → Option Hdr → List RawTP → Res (Heap × Option Hdr)
+  | h, s, [] => .ok (h, s)
+  | h, s, tp :: rest =>
+    match vAppend tp.id, vAppend tp.value.length with
+    | .ok ib, .ok lb =>
+      let (h1, s1) := hAppend grow h s ib
+      let (h2, s2) := hAppend grow h1 s1 lb
+      let (h3, s3) := hAppend grow h2 s2 tp.value
+      hMarshalFrom grow h3 s3 rest
+    | _, _ => .panic
+
+/-- `Marshal()`: from the nil slice. -/
+def hMarshal (grow : Nat → Nat) (h : Heap) (tps : List RawTP) : Res (Heap × Option Hdr) :=
+  hMarshalFrom grow h none tps
+
+/-- several lists marshalled one after the other in one memory; the caller keeps every header. -/
+def hMarshalSeq (grow : Nat → Nat) : Heap → List (List RawTP) → Res (Heap × List (Option Hdr))
+  | h, [] => .ok (h, [])
+  | h, l :: ls =>
+    match hMarshal grow h l with
+    | .panic => .panic
+    | .ok (h1, r) =>
+      match hMarshalSeq grow h1 ls with
+      | .panic => .panic
+      | .ok (hN, rs) => .ok (hN, r :: rs)
+
 /-- independent parser of the RFC 9000 §18 grammar: a sequence of (varint id, varint length, value). -/
 def parseTPsFuel : Nat → Bytes → Option (List RawTP)
   | _, [] => some []
